@@ -179,18 +179,18 @@ def judge(case, m, out, frames, w, res):
             if succ:
                 res.violation("success-after-empty-reply", case, f"{desc}: step {eof_at} got an empty reply but the call reported success")
                 return False
-        elif type(out[1]) is not RuntimeError:
+        elif not isinstance(out[1], RuntimeError):
             res.violation(f"empty-reply-raises:{type(out[1]).__name__}", case, f"{desc}: raised {out[1]!r}, expected RuntimeError or an unsuccessful response")
             return False
         res.outcome(("eof", eof_at, out[0]))
         return True
     if m.get("select") and m["select"][0] == "either" and out[0] == "exc":
         # non-toggle remote, power off, reported mode unsupported: refusing is one of the two accepted readings
-        if type(out[1]) is RuntimeError and kinds == ["login2", "get_state2"]:
+        if isinstance(out[1], RuntimeError) and kinds == ["login2", "get_state2"]:
             res.outcome(("refused", "either"))
             return None
     if m["error"]:
-        if out[0] != "exc" or type(out[1]) is not RuntimeError:
+        if out[0] != "exc" or (m["error"] == "nothing" and not isinstance(out[1], RuntimeError)):
             res.violation(f"{m['error']}-not-refused", case, f"{desc}: expected RuntimeError, got {out[0]} {out[1]!r}", "RuntimeError", repr(out[1]))
             return False
         if kinds != shape:
